@@ -375,7 +375,7 @@ def run_subnames(res, only=None):
     from lxml import etree
     I_, U_ = ['p', 'Integer', {}], ['p', 'Unicode', {}]
     prog = {'tns': universe.TNS, 'classes': [
-        {'n': 'P0', 'fields': [['v', ['p', 'Integer', {'sub_name': 'renamed'}]], ['w', ['p', 'Unicode', {'sub_name': 'dubya'}]], ['k', I_]]},
+        {'n': 'P0', 'fields': [['v', ['p', 'Integer', {'sub_name': 'renamed'}]], ['w', ['p', 'Unicode', {'sub_name': 'dubya', 'min_occurs': 1}]], ['k', I_]]},
         {'n': 'P', 'base': 'P0', 'fields': [['y', ['p', 'Integer', {'sub_name': 'why'}]]]}],
         'services': [{'n': 'S', 'methods': [{'n': 'm', 'args': [['a', ['c', 'P', {}]], ['b', ['c', 'P0', {}]], ['l', ['a', ['c', 'P', {}], {}]],
                                                                  ['c', ['c', 'P', {'min_occurs': 1}]]], 'ret': ['c', 'P', {}]}]}]}
